@@ -54,6 +54,10 @@ type cpCase struct {
 	Procs      int   `json:"gomaxprocs,omitempty"`
 	// Storm: write-only operation mix (the write buffer is pushed to as fast as the producers can)
 	Storm bool `json:"storm,omitempty"`
+	// StormInvalidateAll: now and then a storm goroutine calls InvalidateAll. With thousands of entries in the table and writers
+	// that keep pushing while it holds the eviction lock, the write buffer reaches half its capacity during the call and
+	// InvalidateAll has to fall back to removing the rest entry by entry after releasing the lock.
+	StormInvalidateAll bool `json:"storm_invalidate_all,omitempty"`
 	// ShrinkAtEnd (bound oracle only): after the final state has been recorded the maximum is lowered to 0 and maintenance
 	// runs once more; everything of positive weight must go
 	ShrinkAtEnd bool `json:"shrink_at_end,omitempty"`
@@ -434,6 +438,9 @@ func runCP(c cpCase, s3 bool) *cpResult {
 							kind = cpStormKinds[rng.Intn(len(cpStormKinds))]
 						}
 						if x := rng.Intn(400); c.Storm {
+							if c.StormInvalidateAll && rng.Intn(1200) == 0 {
+								kind = "invalidateall"
+							}
 						} else if x == 0 {
 							kind = "invalidateall"
 						} else if x == 1 {
@@ -710,6 +717,9 @@ func cpClasses(c cpCase, res *cpResult) []string {
 	if c.Storm {
 		cl = append(cl, "write-storm")
 	}
+	if c.StormInvalidateAll {
+		cl = append(cl, "write-storm-with-invalidateall-over-a-big-table")
+	}
 	return cl
 }
 
@@ -735,11 +745,18 @@ func runCPProp(t *testing.T, oc cpOracle) {
 	substrate := "free-running goroutines (S4): 2-10 goroutines x 20-1500 PRNG-driven operations per phase, 1-3 phases with the manual clock advanced only at the barriers between phases, GOMAXPROCS 3..16, optional yields/sleeps at the verif hook points; "
 	gen := func(t *rapid.T) cpCase {
 		c := genCPS4(t, oc.needBound)
-		if oc.storms && rapid.Bool().Draw(t, "storm") {
+		if oc.storms && rapid.IntRange(0, stormOdds(oc.prop)).Draw(t, "storm") == 0 {
 			c.Storm = true
 			c.Goroutines = rapid.IntRange(6, 16).Draw(t, "stormg")
 			c.OpsPerG = rapid.IntRange(800, 3000).Draw(t, "stormops")
 			c.Phases = 1
+			if !oc.needBound && rapid.IntRange(0, 3).Draw(t, "stormbig") == 0 {
+				// a table of thousands of entries with maintenance enabled, and InvalidateAll calls in the middle of the storm
+				c.Bound, c.Max, c.Weights, c.Keys, c.StormInvalidateAll = 0, 0, nil, 5000, true
+				if c.Expiry == 0 {
+					c.Expiry = 1
+				}
+			}
 		}
 		return c
 	}
@@ -837,7 +854,7 @@ func TestC05_S3Bookkeeping(t *testing.T) {
 }
 
 func TestC05_S4Bookkeeping(t *testing.T) {
-	runCPProp(t, cpOracle{prop: "C05", test: "S4Bookkeeping", check: cpBookkeeping,
+	runCPProp(t, cpOracle{prop: "C05", test: "S4Bookkeeping", storms: true, check: cpBookkeeping,
 		rule:       "oracle at quiescence: the verif audit (table vs eviction deques vs timer wheel vs weight counters) reports nothing, EstimatedSize == table nodes, set(All) == set(Coldest) == set(Hottest) for bounded caches, WeightedSize == weights present, write buffer empty; non-trivial = >= 2 removals reported",
 		nontrivial: cpHasRemovals})
 }
@@ -849,7 +866,7 @@ func TestC06_S3Events(t *testing.T) {
 }
 
 func TestC06_S4Events(t *testing.T) {
-	runCPProp(t, cpOracle{prop: "C06", test: "S4Events", check: cpConservation,
+	runCPProp(t, cpOracle{prop: "C06", test: "S4Events", storms: true, check: cpConservation,
 		rule:       "oracle at quiescence: no value reported twice to either handler, every atomic report matched by exactly one OnDeletion, values written == values present + values reported, present values never reported, reported values were written to that key, per key the atomic reports follow the install chain given by Set's return values, Overflow only in bounded caches and never for zero-weight values, Expiration only with an expiration policy; non-trivial = >= 2 removals reported",
 		nontrivial: cpHasRemovals})
 }
@@ -902,4 +919,12 @@ func TestC16_S4Writes(t *testing.T) {
 		rule: "concurrent writers against a running maintenance consumer (the write buffer is pushed to while a pass drains it, passes are cut off at their budget and re-run); oracle at quiescence, i.e. once every write event must have been consumed: the verif audit (every table node known to the eviction deques and the timer wheel and nothing else, weight counters exact, write buffer empty), " +
 			"the exactly-once ledger (every replaced or removed value reported to OnDeletion exactly once) and the size bound; non-trivial = >= 300 values written",
 		nontrivial: func(c cpCase, r *cpResult) bool { return len(r.Installed) >= 300 }})
+}
+
+// stormOdds: one case in (n+1) is a write storm (C16's cache-level test is about the write buffer: half of its cases).
+func stormOdds(prop string) int {
+	if prop == "C16" {
+		return 1
+	}
+	return 4
 }
